@@ -3,10 +3,12 @@ import Frp.Engines.VReg
 import Frp.Engines.HttpAuth
 import Frp.Engines.Ports
 import Frp.Engines.Release
+import Frp.Engines.GrpRel
 import Frp.Engines.Udp
 import Frp.Engines.Conf
 import Frp.Engines.Nat
 import Frp.Engines.NatPunch
+import Frp.Engines.NatPx
 import Frp.Engines.Wait
 import Frp.Engines.Plugin
 import Frp.Engines.Client
@@ -37,10 +39,12 @@ def all : List (String × Engine) :=
   , ("httpauth", httpauth)
   , ("ports", ports)
   , ("release", release)
+  , ("grprel", grprel)
   , ("udp", udp)
   , ("conf", conf)
   , ("nat", nat)
   , ("punch", punch)
+  , ("natpx", natpx)
   , ("wait", wait)
   , ("plugin", plugin)
   , ("client", client)
